@@ -93,7 +93,8 @@ def main():
         dst = os.path.join(SEEDED, sid)
         os.makedirs(dst, exist_ok=True)
         shutil.copy(os.path.join(src, "patch.diff"), os.path.join(dst, "patch.diff"))
-        shutil.copy(os.path.join(src, "demo.py"), os.path.join(dst, "demo.py"))
+        demo = "seeded_demo.py" if os.path.exists(os.path.join(src, "seeded_demo.py")) else "demo.py"
+        shutil.copy(os.path.join(src, demo), os.path.join(dst, "demo.py"))
         if os.path.exists(os.path.join(src, "NOTES.md")):
             shutil.copy(os.path.join(src, "NOTES.md"), os.path.join(dst, "NOTES.md"))
         m = load_meta(sid)
